@@ -227,7 +227,7 @@ template<class Op, class L, class R>
             }
             bool mixed_neg = !vals::is_signed_v<Res> && (A.neg || B.neg);
             const char* region = mixed_neg ? "negative_operand_unsigned_result" : (expect == E_VALUE ? "in_range" : "out_of_range");
-            if (is_shift && B >= Big(vals::bits_v<Res>)) region = "shift_count_ge_width";
+            if (is_shift && B >= Big(vals::bits_v<Res>)) region = (code == 5 ? (A.is_zero() ? "shift_count_ge_width/lhs_zero" : "shift_count_ge_width/lhs_nonzero") : "shift_count_ge_width");
             if (code == 4 && vals::is_signed_v<Res> && B == Big(-1) && A == Big(vals::min_v<Res>())) region = "most_negative_mod_minus_one";
             // non-trivial: out of range, or within 2 of a limit of the result type
             bool near = expect != E_VALUE || (Big(vals::max_v<Res>()) - exact) <= Big(2) || (exact - Big(vals::min_v<Res>())) <= Big(2);
